@@ -386,3 +386,120 @@ def c09(tier, seed, **kw):
 @prop("C10")
 def c10(tier, seed, **kw):
     return _mem_prop("C10", tier, seed)
+
+
+# ----------------------------------------------------------------------------- C11 / C12: programs, limits, hooks
+
+SNIPPETS = [
+    ("movimm", lambda rng: bytes([0x48, 0xc7, 0xc0]) + rng.randrange(1 << 31).to_bytes(4, "little"), "Mov"),
+    ("inc", lambda rng: bytes([0x48, 0xff, 0xc0]), "Inc"),
+    ("nop", lambda rng: bytes([0x90]), "Nop"),
+    ("add", lambda rng: bytes([0x48, 0x01, 0xd8]), "Add"),
+    ("xor", lambda rng: bytes([0x31, 0xc9]), "Xor"),
+    ("cmp", lambda rng: bytes([0x48, 0x39, 0xd8]), "Cmp"),
+    ("jmp2", lambda rng: bytes([0xeb, 0x01, 0x90]), "Jmp"),
+    ("jne2", lambda rng: bytes([0x75, 0x01, 0x90]), "Jne"),
+    ("push", lambda rng: bytes([0x50]), "Push"),
+    ("pop", lambda rng: bytes([0x5b]), "Pop"),
+    ("syscall", lambda rng: bytes([0x0f, 0x05]), "Syscall"),
+    ("int80", lambda rng: bytes([0xcd, 0x80]), "Int"),
+    ("ret", lambda rng: bytes([0xc3]), "Ret"),
+    ("call0", lambda rng: bytes([0xe8, 0, 0, 0, 0]), "Call"),
+    ("ud2", lambda rng: bytes([0x0f, 0x0b]), None),
+    ("bad", lambda rng: bytes([0x06]), None),
+    ("div0", lambda rng: bytes([0x48, 0x31, 0xdb, 0x48, 0xf7, 0xf3]), "Div"),
+]
+
+
+def gen_exec_histories(seed, n):
+    rng = random.Random(seed * 15485863 + 3)
+    lines, hist = [], {}
+
+    def h(k):
+        hist[k] = hist.get(k, 0) + 1
+
+    for k in range(n):
+        cid = "exec%d" % k
+        lines.append("case " + cid)
+        prog = b""
+        mnems = []
+        for _ in range(rng.randrange(1, 9)):
+            name, mk, mn = rng.choices(SNIPPETS, weights=[6, 5, 5, 4, 3, 3, 3, 3, 3, 3, 4, 2, 2, 2, 1, 1, 1])[0]
+            prog += mk(rng)
+            if mn:
+                mnems.append(mn)
+            h("snip-" + name)
+        start = rng.choice([0x1000, 0x4000, 0x400000])
+        rip = start
+        lines.append("new %s %x %x" % (prog.hex(), start, rip))
+        lines.append("allregs " + " ".join("%x" % rng.choice([0, 1, 5, 60, 12, rng.randrange(1 << 32)]) for _ in range(16)))
+        lines.append("allxmm " + " ".join("0" for _ in range(16)))
+        lines.append("flags %x" % rng.choice([0, 0x40, 0x1, 0x8d5]))
+        if rng.random() < 0.8:
+            lines.append("stack %x" % rng.choice([0x40, 0x100]))
+        if rng.random() < 0.4:
+            lines.append("maxinstr %x" % rng.choice([0, 1, 2, 3, 5, 100]))
+            h("limit")
+        # hooks
+        for _ in range(rng.choice([0, 0, 1, 2, 3, 4])):
+            mn = rng.choice(mnems + ["Syscall", "Nop", "Mov", "Int"]) if mnems else "Nop"
+            res = rng.choices("HUSE", weights=[3, 5, 2, 1])[0]
+            acts = []
+            for _ in range(rng.choice([0, 1, 1, 2])):
+                a = rng.random()
+                if a < 0.4:
+                    acts.append("r %s %x" % (rng.choice(["RAX", "RBX", "RCX", "RDI"]), rng.randrange(1 << 16)))
+                elif a < 0.7:
+                    acts.append("i %s" % rng.choice(["RAX", "RBX", "R15"]))
+                elif a < 0.85:
+                    acts.append("f %x" % rng.choice([0, 0x40, 0x1]))
+                else:
+                    acts.append("m %x %s" % (rng.choice([start, 0x2000, 0x7000]), "aa"))
+            lines.append("hook %s %s %s %x %s" % (rng.choice("ba"), mn, res, len(acts), " ".join(acts)))
+            h("hook-" + res)
+        if rng.random() < 0.3:
+            lines.append("syscalls " + " ".join(rng.sample(["exit", "brk", "archprctl"], rng.randrange(1, 3))))
+            h("syscalls")
+        for _ in range(rng.randrange(1, 7)):
+            r = rng.random()
+            if r < 0.55:
+                lines.append("step"); h("step")
+            elif r < 0.8:
+                lines.append("exec %x" % rng.choice([1, 3, 40])); h("exec")
+            elif r < 0.9:
+                lines.append("hook %s %s %s 0" % (rng.choice("ba"), rng.choice(mnems or ["Nop"]), rng.choice("HU"))); h("late-hook")
+            else:
+                lines.append("regw 64 %s %x" % (rng.choice(["RAX", "RIP", "RSP"]), rng.choice([start, start + 1, 0, 60])))
+            if rng.random() < 0.5:
+                lines.append("dump")
+        lines.append("step")
+        lines.append("dump")
+        lines.append("render")
+        lines.append("end")
+    return lines, hist
+
+
+def _exec_prop(prop_id, tier, seed):
+    n = 700 if tier == "quick" else 30000
+    lines, hist = gen_exec_histories(seed + (0 if prop_id == "C11" else 5), n)
+    return hand_check(
+        prop_id, lines, hist,
+        rule="random short programs over 17 instruction snippets (incl. undecodable / unsupported bytes, div by zero, "
+             "top-level ret), optional instruction limit, up to 4 scripted before/after hooks per case with outcomes "
+             "handled/unhandled/stop/error and state-modifying actions, built-in syscall handlers, interleaved "
+             "step / execute(fuel) / late registration / register writes; `exec` also compares Axecutor::execute on a "
+             "clone with the harness's own step loop; non-trivial = at least one successful step; distinct op sequences",
+        nontrivial=lambda b: any(x.startswith(("step", "exec")) for x in b),
+        project=lambda r: project_generic(r, ("d regs", "d misc", "d cs", "d trace", "d area")),
+        impl_checks=lambda block, res: next(("execute() differs from stepping: " + l for l in res if "EXECUTE-DIFFERS" in l), None) or
+                                       next(("implementation panicked: " + l for l in res if l.startswith("r panic") or "render" in l and "panic" in l), None))
+
+
+@prop("C11")
+def c11(tier, seed, **kw):
+    return _exec_prop("C11", tier, seed)
+
+
+@prop("C12")
+def c12(tier, seed, **kw):
+    return _exec_prop("C12", tier, seed)
